@@ -404,13 +404,16 @@ class ValueWrapper(Term):
         if isinstance(value, (date, time)):
             return cls.get_formatted_value(value.isoformat(), ctx)
         if isinstance(value, str):
+            if ctx.dialect == Dialects.MYSQL:
+                # MySQL reads a backslash inside a string literal as an escape character
+                value = value.replace("\\", "\\\\")
             return format_quotes(value, quote_char)
         if isinstance(value, bool):
             return str(value).lower()
         if isinstance(value, uuid.UUID):
             return cls.get_formatted_value(str(value), ctx)
         if isinstance(value, (dict, list)):
-            return format_quotes(json.dumps(value), quote_char)
+            return cls.get_formatted_value(json.dumps(value), ctx)
         if value is None:
             return "null"
         return str(value)
